@@ -13,12 +13,6 @@ theorem length_undelta (p : Nat) (ds : List Nat) : (undelta p ds).length = ds.le
   | nil => rfl
   | cons d t ih => simp [undelta, ih]
 
-theorem c0_u8 : Consumes u8 0 := consumes_zero_of _ _ (consumes_leNat 1)
-theorem c0_u16 : Consumes u16 0 := consumes_zero_of _ _ (consumes_leNat 2)
-theorem c0_u32 : Consumes u32 0 := consumes_zero_of _ _ (consumes_leNat 4)
-theorem c0_u64 : Consumes u64 0 := consumes_zero_of _ _ (consumes_leNat 8)
-theorem c0_skip (n : Nat) : Consumes (skip n) 0 := consumes_zero_of _ _ (consumes_skip n)
-theorem c8_u64 : Consumes u64 8 := consumes_leNat 8
 
 theorem tail_entries (n : Nat) (g : List Nat → Image) (hg : ∀ l, (g l).entries = l) :
     BoundedBy nEntries 8 (Reader.bind (repeatN u64 n) fun es => Reader.pure (g es)) :=
